@@ -20,6 +20,9 @@ MUTATORS = ('set', 'add', 'del', 'pop', 'pop_at', 'popitem', 'setdefault', 'upda
 POSITIONAL = ('add', 'pop_at', 'sort', 'reverse')
 
 
+SORT_KEYS = {'parity': lambda k: (ord(k[0]) if k else 0) % 2, 'const': lambda k: 0}
+
+
 class Refuser(object):
     """Injected validator: refuses a seeded subset of values (the fault of this engine)."""
 
@@ -86,6 +89,9 @@ class C16(BaseCheck):
         nkeys = k.choice([3, 3, 4, 4, 5])
         keys = KEYS[:nkeys]
         case = {'class': cls, 'nkeys': nkeys}
+        if cls in ('sd', 'mo') and k.random() < 0.3:
+            case['falsy_key'] = True       # the empty string is a perfectly good key (and a falsy one)
+            keys = [''] + keys[1:]
         if cls in ('sd', 'mo'):
             case['validator'] = k.choice([None, None, {'mod': 5, 'rem': 2}, {'mod': 3, 'rem': 0}])
             case['init_as'] = k.choice(['pairs', 'dict', 'none'])
@@ -156,7 +162,10 @@ class C16(BaseCheck):
             elif op == 'clear':
                 ops.append({'op': 'clear'})
             elif op == 'sort':
-                ops.append({'op': 'sort', 'reverse': r.random() < 0.4})
+                o = {'op': 'sort', 'reverse': r.random() < 0.4}
+                if r.random() < 0.4:
+                    o['key'] = r.choice(['parity', 'const'])      # key functions that produce ties (sort must stay stable)
+                ops.append(o)
             elif op == 'reverse':
                 ops.append({'op': 'reverse'})
             elif op == 'append':
@@ -272,7 +281,10 @@ class C16(BaseCheck):
             m.clear()
             return None
         if op == 'sort':
-            m.sort(reverse=o.get('reverse', False))
+            if o.get('key'):
+                m.sort(key=SORT_KEYS[o['key']], reverse=o.get('reverse', False))
+            else:
+                m.sort(reverse=o.get('reverse', False))
             return None
         if op == 'reverse':
             m.reverse()
@@ -322,6 +334,9 @@ class C16(BaseCheck):
         if op == 'clear':
             return om.clear_outcomes(items)
         if op == 'sort':
+            if o.get('key'):
+                f = SORT_KEYS[o['key']]
+                return [('ok', sorted(items, key=lambda p: f(p[0]), reverse=o.get('reverse', False)), om.ANY)]
             return om.sort_outcomes(items, o.get('reverse', False))
         if op == 'reverse':
             return om.reverse_outcomes(items)
@@ -435,6 +450,8 @@ class C16(BaseCheck):
         stats['class.' + case['class']] = 1
         m, grid, refuses = self._build(case, stats)
         keys = KEYS[:case['nkeys']]
+        if case.get('falsy_key'):
+            keys = [''] + keys[1:]
         items = [[k, mkval(v)] for k, v in case.get('init', [])]
         if case.get('init_as') in ('dict', 'sd') and case['class'] in ('gmeta', 'cmeta') or \
                 case.get('init_as') == 'dict':
